@@ -146,7 +146,7 @@ func decodeStruct(p Paragraph, into reflect.Value) error {
 		field := into.Field(i)
 		fieldType := into.Type().Field(i)
 
-		if field.Type().Kind() == reflect.Struct {
+		if field.Type().Kind() == reflect.Struct && walkInto(field, paragraphType) {
 			err := decodeStruct(p, field)
 			if err != nil {
 				return err
@@ -195,6 +195,22 @@ func decodeStruct(p Paragraph, into reflect.Value) error {
 	}
 
 	return nil
+}
+
+// walkInto reports whether the fields of a nested struct are to be filled
+// from the Paragraph's keys. That is not the case for the raw Paragraph
+// itself, nor for types that decode themselves (a version.Version has a
+// Revision member, but a "Revision" key of the Paragraph is not meant for it).
+func walkInto(field reflect.Value, paragraphType reflect.Type) bool {
+	if field.Type() == paragraphType {
+		return false
+	}
+	if field.CanAddr() && field.Addr().CanInterface() {
+		if _, ok := field.Addr().Interface().(Unmarshallable); ok {
+			return false
+		}
+	}
+	return true
 }
 
 // }}}
